@@ -592,6 +592,77 @@ for kind, r in zip(UKINDS, run_parallel(UKINDS, udp_session_stalled, workers=3))
         chk.violation('stall.udp-session-not-read', f'blocked:api:{kind}', f'GET /live -> {r["api_live"]}, processes alive: {r["alive"]}', rp)
     samples.append({'udp_session_stalled': r})
 
+# ---- a UDP listener (reverse) has ONE receive loop for all its clients: a client whose session cannot get rid of its
+#      datagrams (its upstream proxy accepted the connection and never answers; or answers and never reads) and who
+#      keeps sending must not stop the loop for the others
+def reverse_udp_client_stalled(kind):
+    uo = UdpOrigin()
+    up = Origin(silent if kind == 'upstream never answers' else noread_after_200)
+    rp, ap = free_port('udp'), free_port()
+    a = socket.socket(socket.AF_INET, socket.SOCK_DGRAM); a.bind(('127.0.0.1', 0))
+    b = socket.socket(socket.AF_INET, socket.SOCK_DGRAM); b.bind(('127.0.0.1', 0)); b.settimeout(DEADLINE)
+    cfg = {'listeners': [{'name': 'rev', 'type': 'reverse', 'protocol': 'udp', 'bind': f'127.0.0.1:{rp}', 'target': f'127.0.0.1:{uo.port}'}],
+           'connectors': [{'name': 'direct'}, {'name': 'h', 'type': 'http', 'server': '127.0.0.1', 'port': up.port}],
+           'rules': [{'filter': f'request.source.port == {a.getsockname()[1]}', 'target': 'h'}, {'target': 'direct'}],
+           'metrics': {'bind': f'127.0.0.1:{ap}', 'ui': None}}
+    px = Proxy(cfg, 'c14r')
+    px.api_port = ap
+    if not px.start([ap]):
+        return {'error': px.log()[-300:]}
+    try:
+        def ask(sock, payload):
+            sock.sendto(payload, ('127.0.0.1', rp))
+            t = time.time()
+            while time.time() - t < DEADLINE:
+                try:
+                    d, _ = sock.recvfrom(70000)
+                except OSError:
+                    return None
+                if d == b'R' + payload:
+                    return round(time.time() - t, 3)
+            return None
+        if ask(b, b'before') is None:
+            return {'error': 'the other client is not served before the scenario'}
+        # once a session exists its own connected socket takes the client's datagrams: the receive loop only meets
+        # what arrived before that. The burst is therefore delivered while the proxy is not scheduled (SIGSTOP - the
+        # schedule a loaded machine produces by itself): 300 datagrams wait on the listener's socket when it resumes
+        os.kill(px.proc.pid, signal.SIGSTOP)
+        try:
+            for i in range(300):
+                a.sendto(b'A%04d' % i + b'x' * 60, ('127.0.0.1', rp))
+        finally:
+            os.kill(px.proc.pid, signal.SIGCONT)
+        time.sleep(0.5)
+        rts = [ask(b, b'probe%d' % i) for i in range(3)]
+        c = socket.socket(socket.AF_INET, socket.SOCK_DGRAM); c.bind(('127.0.0.1', 0)); c.settimeout(DEADLINE)
+        fresh = ask(c, b'fresh')
+        st, _ = px.api('GET', '/live', timeout=DEADLINE)
+        c.close()
+        return {'kind': kind, 'other_client_round_trips': rts, 'fresh_client_round_trip': fresh, 'api_live': st, 'alive': px.alive()}
+    finally:
+        px.stop(); uo.stop(); up.stop(); a.close(); b.close()
+
+def noread_after_200(c, a, rec):
+    recv_head(c, 10)
+    c.sendall(b'HTTP/1.1 200 OK\r\n\r\n')
+    time.sleep(60)
+
+RKINDS = ['upstream never answers', 'upstream answers and never reads']
+for kind, r in zip(RKINDS, run_parallel(RKINDS, reverse_udp_client_stalled, workers=2)):
+    evals += 1
+    if isinstance(r, tuple) or 'error' in r:
+        machinery(f'reverse UDP listener, {kind}: {r}')
+    lost = [x for x in r['other_client_round_trips'] if x is None]
+    distinct.add(('reverse-udp-client-stalled', kind, bool(lost), r['fresh_client_round_trip'] is None))
+    rp_ = {'case': kind, 'observed': r}
+    if lost:
+        chk.violation('stall.udp-listener', f'blocked:other-udp-client:{kind}', f'reverse UDP listener: one client sent a burst of 300 datagrams into a session whose {kind}: another client of the listener got no answer within {DEADLINE} s (round trips {r["other_client_round_trips"]})', rp_)
+    if r['fresh_client_round_trip'] is None:
+        chk.violation('stall.udp-listener', f'blocked:fresh-udp-client:{kind}', f'reverse UDP listener: one client sent a burst of 300 datagrams into a session whose {kind}: a new client of the listener got no answer within {DEADLINE} s', rp_)
+    if r['api_live'] != 200 or not r['alive']:
+        chk.violation('stall.udp-listener', f'blocked:api:{kind}', f'reverse UDP listener with a stalled session: GET /live -> {r["api_live"]}, process alive: {r["alive"]}', rp_)
+    samples.append({'reverse_udp_client_stalled': r})
+
 # ---- tunnels blocked on a slow peer, all of them multiplexed over ONE upstream connection (QUIC connector -> QUIC
 #      listener): whatever the blocked ones hold (stream windows, connection window, buffers), the other tunnels on that
 #      connection and new requests through it are still served. 8 and (thorough) 24 clients that never read a flood.
